@@ -232,162 +232,7 @@ Lemma prefix_iff_names : forall app entry node x,
 Proof. intros. exact (gprefix_iff_names deploy_elem app entry node x deploy_elem_safe H H0 H1 H2). Qed.
 
 (* ================================================================== *)
-(* the key space built by AddWorkload                                  *)
-
-Definition entry_of (x : names) : bytes * wl := (key_of x, wl_of_names x).
-
-Lemma key_of_id_gen : forall r x y, safe_elem r -> good x -> good y -> gkey r x = gkey r y -> nm_id x = nm_id y.
-Proof.
-  intros r x y Hr Gx Gy E. unfold gkey in E. apply (f_equal (@tl ascii)) in E. cbn [tl] in E. rename E into E'.
-  destruct Gx as [Va [Ve [Vn [Sid _]]]]. destruct Gy as [Va' [Ve' [Vn' [Sid' _]]]].
-  apply join_inj in E'; try discriminate.
-  - inversion E'. reflexivity.
-  - fa; apply safe_no_slash; try assumption; try apply deploy_elem_safe;
-      try (apply valid_app_safe; assumption); try (apply valid_entry_safe; assumption).
-  - fa; apply safe_no_slash; try assumption; try apply deploy_elem_safe;
-      try (apply valid_app_safe; assumption); try (apply valid_entry_safe; assumption).
-Qed.
-Lemma key_of_id : forall x y, good x -> good y -> key_of x = key_of y -> nm_id x = nm_id y.
-Proof. intros x y. exact (key_of_id_gen deploy_elem x y deploy_elem_safe). Qed.
-
-Lemma has_key_false : forall x pre, good x -> Forall good pre -> ~ In (nm_id x) (map nm_id pre) ->
-  has_key (key_of x) (map entry_of pre) = false.
-Proof.
-  intros x pre G F N. induction pre as [|y pre IH]; [reflexivity|].
-  inversion F as [|? ? Gy Fp]; subst. cbn [map has_key entry_of]. cbn [map In] in N.
-  destruct (bytes_eqb (key_of x) (key_of y)) eqn:E.
-  - apply bytes_eqb_eq in E. apply key_of_id in E; try assumption. elim N. left. congruence.
-  - cbn [orb]. apply IH; [exact Fp|]. intro C. apply N. right. exact C.
-Qed.
-Lemma has_id_false : forall id pre, ~ In id (map nm_id pre) -> has_id id (map entry_of pre) = false.
-Proof.
-  intros id pre N. induction pre as [|y pre IH]; [reflexivity|].
-  cbn [map has_id entry_of wl_of_names w_id]. cbn [map In] in N.
-  destruct (bytes_eqb id (nm_id y)) eqn:E.
-  - apply bytes_eqb_eq in E. elim N. left. congruence.
-  - cbn [orb]. apply IH. intro C. apply N. right. exact C.
-Qed.
-
-Fixpoint build_names (s : kspace) (xs : list names) : kspace * list bool :=
-  match xs with
-  | [] => (s, [])
-  | x :: t => let '(s', okb) := add_workload s (wl_of_names x) in
-              let '(fin, oks) := build_names s' t in (fin, okb :: oks)
-  end.
-
-Lemma build_is_build_names : forall adds s, build s adds = build_names s (map names_of adds).
-Proof.
-  induction adds as [|a adds IH]; intro s; [reflexivity|]. simpl.
-  change (wl_of a) with (wl_of_names (names_of a)).
-  destruct (add_workload s (wl_of_names (names_of a))) as [s' okb]. rewrite IH. reflexivity.
-Qed.
-
-(* under accepted names and distinct ids every AddWorkload succeeds and files the workload under its key *)
-Lemma build_good : forall xs pre, Forall good pre -> Forall good xs -> NoDup (map nm_id (pre ++ xs)) ->
-  build_names (map entry_of pre) xs = (map entry_of (pre ++ xs), map (fun _ => true) xs).
-Proof.
-  induction xs as [|x xs IH]; intros pre Fp Fx ND.
-  - simpl. rewrite app_nil_r. reflexivity.
-  - inversion Fx as [|? ? Gx Fxs]; subst. simpl. unfold add_workload.
-    rewrite (deploy_key_good x Gx). cbn [w_id wl_of_names].
-    assert (Nin : ~ In (nm_id x) (map nm_id pre)).
-    { rewrite map_app in ND. simpl in ND. apply NoDup_remove_2 in ND. intro C. apply ND. apply in_or_app. left. exact C. }
-    rewrite (has_key_false x pre Gx Fp Nin), (has_id_false _ pre Nin). cbn [orb].
-    change (map entry_of pre ++ [(key_of x, wl_of_names x)]) with (map entry_of pre ++ map entry_of [x]).
-    rewrite <- map_app.
-    rewrite (IH (pre ++ [x])).
-    + rewrite <- app_assoc. reflexivity.
-    + apply Forall_app. split; [exact Fp | constructor; [exact Gx | constructor]].
-    + exact Fxs.
-    + rewrite <- app_assoc. exact ND.
-Qed.
-
-(* ================================================================== *)
-(* isolation on the etcd store                                         *)
-
-Lemma filter_map_entry : forall (f : bytes -> bool) xs,
-  map (fun kw => w_id (snd kw)) (filter (fun kw => f (fst kw)) (map entry_of xs))
-  = map nm_id (filter (fun x => f (key_of x)) xs).
-Proof.
-  intros f xs. induction xs as [|x xs IH]; [reflexivity|]. simpl.
-  destruct (f (key_of x)); simpl; [f_equal|]; exact IH.
-Qed.
-
-Lemma filter_ext_in : forall (A : Type) (f g : A -> bool) l,
-  (forall x, In x l -> f x = g x) -> filter f l = filter g l.
-Proof.
-  induction l as [|a l IH]; intro H; [reflexivity|]. simpl.
-  rewrite (H a (or_introl eq_refl)). rewrite IH; [reflexivity|]. intros x Hx. apply H. right. exact Hx.
-Qed.
-
-(* ListWorkloads on etcd returns exactly the workloads created under the (non-ignored) names *)
-Lemma isolation_etcd : forall xs app entry node (sel : names -> bool),
-  Forall good xs -> ok_or_empty app -> ok_or_empty entry -> ok_or_empty node ->
-  (forall x, sel x = true <-> under_names app entry node x) ->
-  list_workloads Etcd (map entry_of xs) app entry node = map nm_id (filter sel xs).
-Proof.
-  intros xs app entry node sel F Ha He Hn Sel. unfold list_workloads. cbv zeta.
-  rewrite (filter_map_entry (fun k => under Etcd (list_key app entry node) k)). f_equal.
-  apply filter_ext_in. intros x Hx. rewrite Forall_forall in F. specialize (F x Hx).
-  cbn [under]. pose proof (prefix_iff_names app entry node x Ha He Hn F) as P.
-  destruct (has_prefix (list_key app entry node) (key_of x)) eqn:E1; destruct (sel x) eqn:E2; try reflexivity.
-  - assert (sel x = true) by (apply Sel, P; reflexivity). congruence.
-  - assert (T : false = true) by (apply P, Sel, E2). discriminate.
-Qed.
-
-(* GetDeployStatus on etcd: the nodes of exactly the workloads of (app, entry) *)
-Lemma key_node_key_of : forall x, good x -> key_node (key_of x) = nm_node x.
-Proof.
-  intros x [Va [Ve [Vn [Sid _]]]]. unfold key_node, key_of, gkey.
-  pose proof (valid_app_safe _ Va) as Sa. destruct (valid_entry_safe _ Ve) as [Se _].
-  pose proof (valid_node_safe _ Vn) as Sn.
-  change (split_on slash (slash :: join [slash] [deploy_elem; nm_app x; nm_entry x; nm_node x; nm_id x]))
-    with (let r := split_on slash (join [slash] [deploy_elem; nm_app x; nm_entry x; nm_node x; nm_id x]) in
-          if Ascii.eqb slash slash then [] :: r else match r with h :: r' => (slash :: h) :: r' | [] => [[slash]] end).
-  rewrite Ascii.eqb_refl. cbv zeta. rewrite split_join.
-  - reflexivity.
-  - discriminate.
-  - fa; apply safe_no_slash; try assumption. apply deploy_elem_safe.
-Qed.
-
-Lemma status_key_list_key : forall app entry, safe_elem app -> safe_elem entry ->
-  status_key app entry = list_key app entry [].
-Proof.
-  intros app entry Sa Se. rewrite list_key_eff by (try (right; assumption); left; reflexivity).
-  unfold status_key. rewrite join_path_deploy by (fa; right; assumption).
-  cbn [filter]. rewrite !safe_nonempty by assumption.
-  unfold eff. destruct app as [|a app']; [destruct Sa; congruence|].
-  destruct entry as [|e entry']; [destruct Se; congruence|]. reflexivity.
-Qed.
-
-Lemma status_etcd : forall xs app entry (sel : names -> bool),
-  Forall good xs -> safe_elem app -> safe_elem entry ->
-  (forall x, sel x = true <-> (nm_app x = app /\ nm_entry x = entry)) ->
-  status_nodes Etcd (map entry_of xs) app entry = map nm_node (filter sel xs).
-Proof.
-  intros xs app entry sel F Sa Se Sel. unfold status_nodes. cbv zeta.
-  assert (Na : app <> []) by apply Sa. assert (Ne : entry <> []) by apply Se.
-  rewrite status_key_list_key by assumption.
-  induction xs as [|x xs IH]; [reflexivity|]. inversion F as [|? ? Gx Fx]; subst.
-  cbn [map filter under]. change (fst (entry_of x)) with (key_of x).
-  pose proof (prefix_iff_names app entry [] x (or_intror Sa) (or_intror Se) (or_introl eq_refl) Gx) as P.
-  assert (U : under_names app entry [] x <-> (nm_app x = app /\ nm_entry x = entry)).
-  { unfold under_names, eff. destruct app; [congruence|]. destruct entry; [congruence|]. split.
-    - intros [r E]. inversion E. auto.
-    - intros [<- <-]. exists [nm_node x]. reflexivity. }
-  destruct (has_prefix (list_key app entry []) (key_of x)) eqn:E1; destruct (sel x) eqn:E2; cbn [map fst].
-  - change (fst (entry_of x)) with (key_of x). rewrite (key_node_key_of x Gx). f_equal. apply IH. exact Fx.
-  - assert (sel x = true) by (apply Sel, U, P; reflexivity). congruence.
-  - assert (T : false = true) by (apply P, U, Sel, E2). discriminate.
-  - apply IH. exact Fx.
-Qed.
-
-(* ================================================================== *)
-(* redis: a literal pattern followed by '*' is a prefix test            *)
-
-Definition is_meta (c : ascii) : bool :=
-  Ascii.eqb c star || Ascii.eqb c qmark || Ascii.eqb c lbracket || Ascii.eqb c backslash.
-Definition no_meta (p : bytes) : Prop := forallb (fun c => negb (is_meta c)) p = true.
+(* redis: an escaped literal followed by '*' is a prefix test           *)
 
 Lemma glob_star_any : forall s, glob [star] s = true.
 Proof.
@@ -395,138 +240,28 @@ Proof.
   induction s as [|x s IH]; [reflexivity|]. cbn [glob]. cbn [orb]. exact IH.
 Qed.
 
-Lemma glob_literal_prefix : forall p s, no_meta p -> glob (p ++ [star]) s = has_prefix p s.
+Lemma glob_escape_prefix : forall p s, glob (escape_glob p ++ [star]) s = has_prefix p s.
 Proof.
-  induction p as [|c p IH]; intros s H.
-  - simpl app. rewrite glob_star_any. reflexivity.
-  - unfold no_meta in H. simpl in H. apply andb_true_iff in H. destruct H as [Hc Hp].
-    apply negb_true_iff in Hc. unfold is_meta in Hc.
-    apply orb_false_iff in Hc. destruct Hc as [Hc H4]. apply orb_false_iff in Hc. destruct Hc as [Hc H3].
-    apply orb_false_iff in Hc. destruct Hc as [H1 H2].
-    simpl app. cbn [glob]. rewrite H1, H2, H3, H4.
-    destruct s as [|x s]; [reflexivity|]. cbn [has_prefix]. rewrite (IH s Hp). reflexivity.
+  induction p as [|c p IH]; intro s.
+  - simpl. apply glob_star_any.
+  - cbn [escape_glob]. destruct (is_meta c) eqn:M.
+    + (* escaped: backslash, then the character taken literally *)
+      change ((backslash :: c :: escape_glob p) ++ [star]) with (backslash :: c :: (escape_glob p ++ [star])).
+      cbn [glob].
+      change (Ascii.eqb backslash star) with false. change (Ascii.eqb backslash qmark) with false.
+      change (Ascii.eqb backslash lbracket) with false. change (Ascii.eqb backslash backslash) with true.
+      cbv iota. destruct s as [|x s]; [reflexivity|]. cbn [has_prefix]. rewrite IH. reflexivity.
+    + unfold is_meta in M.
+      apply orb_false_iff in M. destruct M as [M H4]. apply orb_false_iff in M. destruct M as [M H3].
+      apply orb_false_iff in M. destruct M as [H1 H2].
+      change ((c :: escape_glob p) ++ [star]) with (c :: (escape_glob p ++ [star])).
+      cbn [glob]. rewrite H1, H2, H3, H4.
+      destruct s as [|x s]; [reflexivity|]. cbn [has_prefix]. rewrite IH. reflexivity.
 Qed.
 
-Lemma no_meta_app : forall a b, no_meta a -> no_meta b -> no_meta (a ++ b).
-Proof. intros a b Ha Hb. unfold no_meta in *. rewrite forallb_app, Ha, Hb. reflexivity. Qed.
-
-Lemma no_meta_join : forall es, Forall no_meta es -> no_meta (join [slash] es).
-Proof.
-  induction es as [|e es IH]; intro F; [reflexivity|]. inversion F as [|? ? Fe Fs]; subst.
-  destruct es as [|e2 es']; [exact Fe|].
-  change (join [slash] (e :: e2 :: es')) with (e ++ [slash] ++ join [slash] (e2 :: es')).
-  apply no_meta_app; [exact Fe|]. apply no_meta_app; [reflexivity | apply IH; exact Fs].
-Qed.
-
-Lemma list_key_no_meta : forall app entry node,
-  ok_or_empty app -> ok_or_empty entry -> ok_or_empty node ->
-  no_meta app -> no_meta entry -> no_meta node -> no_meta (list_key app entry node).
-Proof.
-  intros app entry node Ha He Hn Ma Me Mn. rewrite list_key_eff by assumption.
-  change (slash :: join [slash] (deploy_elem :: eff app entry node) ++ [slash])
-    with ([slash] ++ join [slash] (deploy_elem :: eff app entry node) ++ [slash]).
-  apply no_meta_app; [reflexivity|]. apply no_meta_app; [|reflexivity].
-  apply no_meta_join. constructor; [reflexivity|].
-  unfold eff. destruct app; [constructor|]. destruct entry; [fa; assumption|].
-  destruct node; fa; assumption.
-Qed.
-
-(* on redis the same answer as on etcd, as long as the QUERY names contain no glob metacharacter *)
-Lemma redis_as_etcd : forall s app entry node,
-  ok_or_empty app -> ok_or_empty entry -> ok_or_empty node ->
-  no_meta app -> no_meta entry -> no_meta node ->
-  list_workloads Redis s app entry node = list_workloads Etcd s app entry node.
-Proof.
-  intros s app entry node Ha He Hn Ma Me Mn. unfold list_workloads. cbv zeta. f_equal.
-  apply filter_ext. intro kw. cbn [under]. apply glob_literal_prefix. apply list_key_no_meta; assumption.
-Qed.
-
-Lemma redis_status_as_etcd : forall s app entry,
-  safe_elem app -> safe_elem entry -> no_meta app -> no_meta entry ->
-  status_nodes Redis s app entry = status_nodes Etcd s app entry.
-Proof.
-  intros s app entry Sa Se Ma Me. unfold status_nodes. cbv zeta. f_equal.
-  apply filter_ext. intro kw. cbn [under]. apply glob_literal_prefix.
-  rewrite status_key_list_key by assumption.
-  apply list_key_no_meta; try assumption; try (right; assumption); try (left; reflexivity). reflexivity.
-Qed.
-
-(* ================================================================== *)
-(* refutations (witnesses are replayed on the real stores by the harness corpus) *)
-
-Definition nm (app entry node id : string) : names := mkNames (s2l app) (s2l entry) (s2l "abc001") (s2l node) (s2l id).
-
-(* redis: accepted names with a glob metacharacter see other applications' workloads *)
-Lemma redis_glob_refuted :
-  exists xs app entry,
-    Forall good xs /\ NoDup (map nm_id xs) /\ valid_app app = true /\ valid_entry entry = true /\
-    list_workloads Redis (fst (build_names [] xs)) app entry []
-    <> map nm_id (filter (fun x => bytes_eqb (nm_app x) app && bytes_eqb (nm_entry x) entry) xs).
-Proof.
-  exists [nm "a*" "e" "n1" "id1"; nm "ab" "e" "n1" "id2"], (s2l "a*"), (s2l "e").
-  split; [|split; [|split; [|split]]].
-  - fa; unfold good; simpl; repeat split; try reflexivity; try discriminate.
-  - simpl. repeat constructor; simpl; intuition discriminate.
-  - reflexivity.
-  - reflexivity.
-  - vm_compute. discriminate.
-Qed.
-
-(* the validation before the repair accepted names whose keys collide on both stores *)
-Lemma old_validation_refuted :
-  exists x y, validate_deploy_old (nm_app x) (nm_entry x) = 0%N /\ validate_deploy_old (nm_app y) (nm_entry y) = 0%N /\
-    (nm_app x, nm_entry x) <> (nm_app y, nm_entry y) /\ nm_id x <> nm_id y /\
-    (* both are filed, and listing x's application and entrypoint returns y's workload too *)
-    snd (build_names [] [x; y]) = [true; true] /\
-    list_workloads Etcd (fst (build_names [] [x; y])) (nm_app x) (nm_entry x) [] = [nm_id x; nm_id y] /\
-    list_workloads Redis (fst (build_names [] [x; y])) (nm_app x) (nm_entry x) [] = [nm_id x; nm_id y] /\
-    (* and the repaired validation rejects them *)
-    validate_deploy (nm_app x) (nm_entry x) <> 0%N /\ validate_deploy (nm_app y) (nm_entry y) <> 0%N.
-Proof.
-  exists (nm "a/b" "c" "n1" "id1"), (nm "a" "b/c" "n1" "id2").
-  vm_compute. repeat split; try reflexivity; try discriminate.
-Qed.
-
-Lemma old_roundtrip_refuted :
-  exists app entry ident, validate_deploy_old app entry = 0%N /\ no_byte underscore ident /\
-    parse_name (make_name app entry ident) <> Some (app, entry, ident) /\ validate_deploy app entry <> 0%N.
-Proof.
-  exists (s2l "/a"), (s2l "e"), (s2l "x"). vm_compute. repeat split; try reflexivity; discriminate.
-Qed.
-
-(* hypotheses are satisfiable *)
-Example names_example :
-  let xs := [nm "a" "b" "n1" "id1"; nm "ab" "b" "n1" "id2"; nm "a" "bc" "n1" "id3"; nm "a_b" "c" "n2" "id4"; nm "a" "b" "n2" "id5"] in
-  Forall good xs /\ NoDup (map nm_id xs) /\
-  snd (build_names [] xs) = [true; true; true; true; true] /\
-  list_workloads Etcd (fst (build_names [] xs)) (s2l "a") (s2l "b") [] = [s2l "id1"; s2l "id5"] /\
-  list_workloads Redis (fst (build_names [] xs)) (s2l "a") [] [] = [s2l "id1"; s2l "id3"; s2l "id5"] /\
-  status_nodes Etcd (fst (build_names [] xs)) (s2l "a") (s2l "b") = [s2l "n1"; s2l "n2"].
-Proof.
-  split; [|split; [|vm_compute; repeat split; reflexivity]].
-  - fa; unfold good; simpl; repeat split; try reflexivity; try discriminate.
-  - simpl. repeat constructor; simpl; intuition discriminate.
-Qed.
-
-(* WorkloadStatusStream on etcd: exactly the workloads created under the (non-ignored) names *)
-Lemma stream_etcd : forall xs app entry node (sel : names -> bool),
-  Forall good xs -> ok_or_empty app -> ok_or_empty entry -> ok_or_empty node ->
-  (forall x, sel x = true <-> under_names app entry node x) ->
-  stream_ids (map wl_of_names xs) app entry node = map nm_id (filter sel xs).
-Proof.
-  intros xs app entry node sel F Ha He Hn Sel. unfold stream_ids. cbv zeta.
-  induction xs as [|x xs IH]; [reflexivity|]. inversion F as [|? ? Gx Fx]; subst.
-  cbn [map filter].
-  change status_prefix with (slash :: status_elem).
-  rewrite (obj_key_good status_elem x status_elem_safe Gx).
-  pose proof (gprefix_iff_names status_elem app entry node x status_elem_safe Ha He Hn Gx) as P.
-  destruct (has_prefix (filter_key (slash :: status_elem) app entry node) (gkey status_elem x)) eqn:E1;
-    destruct (sel x) eqn:E2; cbn [map wl_of_names w_id].
-  - f_equal. apply IH. exact Fx.
-  - assert (sel x = true) by (apply Sel, P; reflexivity). congruence.
-  - assert (T : false = true) by (apply P, Sel, E2). discriminate.
-  - apply IH. exact Fx.
-Qed.
+(* after the repair both stores test the same thing, for every name *)
+Lemma under_any : forall b p k, under b p k = has_prefix p k.
+Proof. intros [|] p k; cbn [under]; [reflexivity | apply glob_escape_prefix]. Qed.
 
 (* ================================================================== *)
 (* processing markers (deployments in flight)                          *)
@@ -577,127 +312,90 @@ Proof.
   - fa; apply safe_no_slash; assumption.
 Qed.
 
-Definition pentry (p : proc) : bytes * proc := (proc_key p, p).
-
-(* doLoadProcessing on etcd: exactly the counters filed under (app, entry), with their node *)
-Lemma proc_counts_etcd : forall ps app entry (sel : proc -> bool),
-  Forall good_proc ps -> safe_elem app -> safe_elem entry ->
-  (forall p, sel p = true <-> (p_app p = app /\ p_entry p = entry)) ->
-  proc_counts Etcd (map pentry ps) app entry = map (fun p => (p_node p, p_count p)) (filter sel ps).
-Proof.
-  intros ps app entry sel F Sa Se Sel. unfold proc_counts. cbv zeta.
-  assert (K : proc_filter_key app entry = filter_key (slash :: processing_elem) app entry [])
-    by (exact (root_key2 processing_elem app entry processing_elem_safe Sa Se)).
-  rewrite K. clear K.
-  induction ps as [|p ps IH]; [reflexivity|]. inversion F as [|? ? Gp Fp]; subst.
-  cbn [map filter under]. change (fst (pentry p)) with (proc_key p). rewrite (proc_key_good p Gp).
-  pose proof (gprefix_iff_names processing_elem app entry [] (pnames p) processing_elem_safe
-                (or_intror Sa) (or_intror Se) (or_introl eq_refl) (good_proc_good p Gp)) as P.
-  assert (U : under_names app entry [] (pnames p) <-> (p_app p = app /\ p_entry p = entry)).
-  { unfold under_names, eff, pnames. cbn [nm_app nm_entry nm_node].
-    destruct app; [destruct Sa; congruence|]. destruct entry; [destruct Se; congruence|]. split.
-    - intros [r E]. inversion E. auto.
-    - intros [<- <-]. exists [p_node p]. reflexivity. }
-  destruct (has_prefix (filter_key (slash :: processing_elem) app entry []) (gkey processing_elem (pnames p))) eqn:E1;
-    destruct (sel p) eqn:E2; cbn [map fst snd].
-  - change (fst (pentry p)) with (proc_key p). rewrite (proc_key_good p Gp).
-    rewrite (gkey_node processing_elem (pnames p) processing_elem_safe (good_proc_good p Gp)).
-    change (snd (pentry p)) with p. cbn [pnames nm_node]. f_equal. apply IH. exact Fp.
-  - assert (sel p = true) by (apply Sel, U, P; reflexivity). congruence.
-  - assert (T : false = true) by (apply P, U, Sel, E2). discriminate.
-  - apply IH. exact Fp.
-Qed.
-
-Lemma filter_key_no_meta : forall r app entry node, safe_elem r -> no_meta r ->
-  ok_or_empty app -> ok_or_empty entry -> ok_or_empty node ->
-  no_meta app -> no_meta entry -> no_meta node -> no_meta (filter_key (slash :: r) app entry node).
-Proof.
-  intros r app entry node Hr Mr Ha He Hn Ma Me Mn. rewrite filter_key_eff by assumption.
-  change (slash :: join [slash] (r :: eff app entry node) ++ [slash])
-    with ([slash] ++ join [slash] (r :: eff app entry node) ++ [slash]).
-  apply no_meta_app; [reflexivity|]. apply no_meta_app; [|reflexivity].
-  apply no_meta_join. constructor; [exact Mr|].
-  unfold eff. destruct app; [constructor|]. destruct entry; [fa; assumption|].
-  destruct node; fa; assumption.
-Qed.
-
-Lemma proc_counts_redis_as_etcd : forall s app entry,
-  safe_elem app -> safe_elem entry -> no_meta app -> no_meta entry ->
-  proc_counts Redis s app entry = proc_counts Etcd s app entry.
-Proof.
-  intros s app entry Sa Se Ma Me. unfold proc_counts. cbv zeta. f_equal.
-  apply filter_ext. intro kp. cbn [under]. apply glob_literal_prefix.
-  assert (K : proc_filter_key app entry = filter_key (slash :: processing_elem) app entry [])
-    by (exact (root_key2 processing_elem app entry processing_elem_safe Sa Se)).
-  rewrite K.
-  apply (filter_key_no_meta processing_elem app entry [] processing_elem_safe);
-    try assumption; try (right; assumption); try (left; reflexivity); reflexivity.
-Qed.
-
 (* ================================================================== *)
-(* assembled statements over the key space built by AddWorkload        *)
+(* the one key space built by AddWorkload and CreateProcessing         *)
 
-Lemma build_names_good : forall xs, Forall good xs -> NoDup (map nm_id xs) ->
-  build_names [] xs = (map entry_of xs, map (fun _ => true) xs).
-Proof. intros xs F ND. apply (build_good xs [] (Forall_nil _) F ND). Qed.
+Definition entry_of (x : names) : bytes * item := (key_of x, IW (wl_of_names x)).
+Definition pentry (p : proc) : bytes * item := (proc_key p, IP p).
+Definition space (xs : list names) (ps : list proc) : kspace := map entry_of xs ++ map pentry ps.
 
-Definition valid_or_empty (valid : bytes -> bool) (n : bytes) : Prop := n = [] \/ valid n = true.
-
-Lemma voe_app : forall n, valid_or_empty valid_app n -> ok_or_empty n.
-Proof. intros n [->|H]; [left; reflexivity | right; apply valid_app_safe; exact H]. Qed.
-Lemma voe_entry : forall n, valid_or_empty valid_entry n -> ok_or_empty n.
-Proof. intros n [->|H]; [left; reflexivity | right; apply valid_entry_safe; exact H]. Qed.
-Lemma voe_node : forall n, valid_or_empty valid_node n -> ok_or_empty n.
-Proof. intros n [->|H]; [left; reflexivity | right; apply valid_node_safe; exact H]. Qed.
-
-Lemma isolation_etcd_built : forall xs app entry node (sel : names -> bool),
-  Forall good xs -> NoDup (map nm_id xs) ->
-  valid_or_empty valid_app app -> valid_or_empty valid_entry entry -> valid_or_empty valid_node node ->
-  (forall x, sel x = true <-> under_names app entry node x) ->
-  snd (build_names [] xs) = map (fun _ => true) xs /\
-  list_workloads Etcd (fst (build_names [] xs)) app entry node = map nm_id (filter sel xs).
+Lemma gkey_elems_noslash : forall r x, safe_elem r -> good x ->
+  Forall (no_byte slash) [r; nm_app x; nm_entry x; nm_node x; nm_id x].
 Proof.
-  intros xs app entry node sel F ND Ha He Hn Sel. rewrite (build_names_good xs F ND). split; [reflexivity|].
-  apply isolation_etcd; auto using voe_app, voe_entry, voe_node.
+  intros r x Hr [Va [Ve [Vn [Sid _]]]].
+  fa; apply safe_no_slash; try assumption;
+    try (apply valid_app_safe; assumption); try (apply valid_entry_safe; assumption).
 Qed.
 
-Lemma isolation_redis_built : forall xs app entry node (sel : names -> bool),
-  Forall good xs -> NoDup (map nm_id xs) ->
-  valid_or_empty valid_app app -> valid_or_empty valid_entry entry -> valid_or_empty valid_node node ->
-  no_meta app -> no_meta entry -> no_meta node ->
-  (forall x, sel x = true <-> under_names app entry node x) ->
-  list_workloads Redis (fst (build_names [] xs)) app entry node = map nm_id (filter sel xs).
+Lemma gkey_inj : forall r1 r2 x y, safe_elem r1 -> safe_elem r2 -> good x -> good y ->
+  gkey r1 x = gkey r2 y -> r1 = r2 /\ nm_id x = nm_id y.
 Proof.
-  intros xs app entry node sel F ND Ha He Hn Ma Me Mn Sel.
-  rewrite redis_as_etcd by auto using voe_app, voe_entry, voe_node.
-  apply isolation_etcd_built; assumption.
+  intros r1 r2 x y H1 H2 Gx Gy E. unfold gkey in E. apply (f_equal (@tl ascii)) in E. cbn [tl] in E.
+  apply join_inj in E; try discriminate.
+  - inversion E. split; reflexivity.
+  - apply gkey_elems_noslash; assumption.
+  - apply gkey_elems_noslash; assumption.
+Qed.
+Lemma key_of_id : forall x y, good x -> good y -> key_of x = key_of y -> nm_id x = nm_id y.
+Proof. intros x y Gx Gy E. apply (gkey_inj deploy_elem deploy_elem x y deploy_elem_safe deploy_elem_safe Gx Gy E). Qed.
+
+Lemma roots_differ : deploy_elem <> processing_elem.
+Proof. discriminate. Qed.
+
+(* a key under one root is never under a filter prefix of another root *)
+Lemma gprefix_cross : forall r1 r2 app entry node x, safe_elem r1 -> safe_elem r2 -> r1 <> r2 ->
+  ok_or_empty app -> ok_or_empty entry -> ok_or_empty node -> good x ->
+  has_prefix (filter_key (slash :: r1) app entry node) (gkey r2 x) = false.
+Proof.
+  intros r1 r2 app entry node x H1 H2 Ne Ha He Hn G.
+  destruct (has_prefix (filter_key (slash :: r1) app entry node) (gkey r2 x)) eqn:E; [|reflexivity].
+  exfalso. rewrite filter_key_eff in E by assumption. unfold gkey in E.
+  cbn [has_prefix List.app] in E. rewrite Ascii.eqb_refl in E. cbn [andb] in E.
+  apply prefix_components in E.
+  - destruct E as [rr [_ E]]. cbn [List.app] in E. inversion E. congruence.
+  - discriminate.
+  - discriminate.
+  - constructor; [apply safe_no_slash, H1 | apply eff_no_slash; assumption].
+  - apply gkey_elems_noslash; assumption.
 Qed.
 
-(* GetDeployStatus: per node, the workloads created under (app, entry) plus the in-flight
-   counters created under (app, entry) -- nothing of any other application or entrypoint *)
-Lemma deploy_status_total : forall b xs ps app entry (selw : names -> bool) (selp : proc -> bool),
-  Forall good xs -> NoDup (map nm_id xs) -> Forall good_proc ps ->
-  valid_app app = true -> valid_entry entry = true ->
-  (b = Redis -> no_meta app /\ no_meta entry) ->
-  (forall x, selw x = true <-> (nm_app x = app /\ nm_entry x = entry)) ->
-  (forall p, selp p = true <-> (p_app p = app /\ p_entry p = entry)) ->
-  deploy_status b (fst (build_names [] xs)) (map pentry ps) app entry =
-  agg (map (fun x => (nm_node x, 1%N)) (filter selw xs) ++ map (fun p => (p_node p, p_count p)) (filter selp ps)).
+Lemma has_key_app : forall k a b, has_key k (a ++ b) = has_key k a || has_key k b.
 Proof.
-  intros b xs ps app entry selw selp F ND Fp Va Ve Hb Sw Sp. unfold deploy_status.
-  rewrite (build_names_good xs F ND). cbn [fst].
-  pose proof (valid_app_safe _ Va) as Sa. destruct (valid_entry_safe _ Ve) as [Se _].
-  assert (E1 : status_nodes b (map entry_of xs) app entry = map nm_node (filter selw xs)).
-  { destruct b; [apply status_etcd; assumption|].
-    destruct (Hb eq_refl) as [Ma Me]. rewrite redis_status_as_etcd by assumption. apply status_etcd; assumption. }
-  assert (E2 : proc_counts b (map pentry ps) app entry = map (fun p => (p_node p, p_count p)) (filter selp ps)).
-  { destruct b; [apply proc_counts_etcd; assumption|].
-    destruct (Hb eq_refl) as [Ma Me]. rewrite proc_counts_redis_as_etcd by assumption. apply proc_counts_etcd; assumption. }
-  rewrite E1, E2, map_map. reflexivity.
+  induction a as [|[k' i] a IH]; intro b; [reflexivity|]. cbn [List.app has_key]. rewrite IH. apply orb_assoc.
 Qed.
 
-(* distinct markers (by ident) are all created *)
-Fixpoint build_procs_n (s : pspace) (l : list proc) : pspace * list bool :=
+Lemma has_key_false : forall x pre, good x -> Forall good pre -> ~ In (nm_id x) (map nm_id pre) ->
+  has_key (key_of x) (map entry_of pre) = false.
+Proof.
+  intros x pre G F N. induction pre as [|y pre IH]; [reflexivity|].
+  inversion F as [|? ? Gy Fp]; subst. cbn [map has_key entry_of]. cbn [map In] in N.
+  destruct (bytes_eqb (key_of x) (key_of y)) eqn:E.
+  - apply bytes_eqb_eq in E. apply key_of_id in E; try assumption. elim N. left. congruence.
+  - cbn [orb]. apply IH; [exact Fp|]. intro C. apply N. right. exact C.
+Qed.
+Lemma has_id_false : forall id pre, ~ In id (map nm_id pre) -> has_id id (map entry_of pre) = false.
+Proof.
+  intros id pre N. induction pre as [|y pre IH]; [reflexivity|].
+  cbn [map has_id entry_of wl_of_names w_id]. cbn [map In] in N.
+  destruct (bytes_eqb id (nm_id y)) eqn:E.
+  - apply bytes_eqb_eq in E. elim N. left. congruence.
+  - cbn [orb]. apply IH. intro C. apply N. right. exact C.
+Qed.
+
+Fixpoint build_names (s : kspace) (xs : list names) : kspace * list bool :=
+  match xs with
+  | [] => (s, [])
+  | x :: t => let '(s', okb) := add_workload s (wl_of_names x) in
+              let '(fin, oks) := build_names s' t in (fin, okb :: oks)
+  end.
+Lemma build_is_build_names : forall adds s, build s adds = build_names s (map names_of adds).
+Proof.
+  induction adds as [|a adds IH]; intro s; [reflexivity|]. simpl.
+  change (wl_of a) with (wl_of_names (names_of a)).
+  destruct (add_workload s (wl_of_names (names_of a))) as [s' okb]. rewrite IH. reflexivity.
+Qed.
+
+Fixpoint build_procs_n (s : kspace) (l : list proc) : kspace * list bool :=
   match l with
   | [] => (s, [])
   | p :: t => let '(s', okb) := add_proc s p in let '(fin, oks) := build_procs_n s' t in (fin, okb :: oks)
@@ -707,44 +405,358 @@ Proof.
   induction pcs as [|p pcs IH]; intro s; [reflexivity|]. simpl.
   destruct (add_proc s (proc_of p)) as [s' okb]. rewrite IH. reflexivity.
 Qed.
-Lemma build_procs_good : forall ps pre, Forall good_proc pre -> Forall good_proc ps ->
-  NoDup (map p_ident (pre ++ ps)) ->
-  build_procs_n (map pentry pre) ps = (map pentry (pre ++ ps), map (fun _ => true) ps).
+
+(* under accepted names and distinct ids every AddWorkload succeeds and files the workload under its key *)
+Lemma build_good : forall xs pre, Forall good pre -> Forall good xs -> NoDup (map nm_id (pre ++ xs)) ->
+  build_names (map entry_of pre) xs = (map entry_of (pre ++ xs), map (fun _ => true) xs).
 Proof.
-  induction ps as [|p ps IH]; intros pre Fpre Fps ND.
+  induction xs as [|x xs IH]; intros pre Fp Fx ND.
+  - simpl. rewrite app_nil_r. reflexivity.
+  - inversion Fx as [|? ? Gx Fxs]; subst. simpl. unfold add_workload.
+    rewrite (deploy_key_good x Gx). cbn [w_id wl_of_names].
+    assert (Nin : ~ In (nm_id x) (map nm_id pre)).
+    { rewrite map_app in ND. simpl in ND. apply NoDup_remove_2 in ND. intro C. apply ND. apply in_or_app. left. exact C. }
+    rewrite (has_key_false x pre Gx Fp Nin), (has_id_false _ pre Nin). cbn [orb].
+    change (map entry_of pre ++ [(key_of x, IW (wl_of_names x))]) with (map entry_of pre ++ map entry_of [x]).
+    rewrite <- map_app.
+    rewrite (IH (pre ++ [x])).
+    + rewrite <- app_assoc. reflexivity.
+    + apply Forall_app. split; [exact Fp | constructor; [exact Gx | constructor]].
+    + exact Fxs.
+    + rewrite <- app_assoc. exact ND.
+Qed.
+
+(* ... and every CreateProcessing with a distinct ident succeeds, in the same key space *)
+Lemma build_procs_good : forall ps xs pre, Forall good xs -> Forall good_proc pre -> Forall good_proc ps ->
+  NoDup (map p_ident (pre ++ ps)) ->
+  build_procs_n (space xs pre) ps = (space xs (pre ++ ps), map (fun _ => true) ps).
+Proof.
+  induction ps as [|p ps IH]; intros xs pre Fx Fpre Fps ND.
   - simpl. rewrite app_nil_r. reflexivity.
   - inversion Fps as [|? ? Gp Fps']; subst. cbn [build_procs_n]. unfold add_proc at 1. cbv zeta.
     assert (Nin : ~ In (p_ident p) (map p_ident pre)).
     { rewrite map_app in ND. simpl in ND. apply NoDup_remove_2 in ND. intro C. apply ND. apply in_or_app. left. exact C. }
-    assert (HK : has_pkey (proc_key p) (map pentry pre) = false).
-    { clear - Gp Fpre Nin. induction pre as [|q pre IH]; [reflexivity|]. inversion Fpre as [|? ? Gq Fq]; subst.
-      cbn [map has_pkey pentry]. cbn [map In] in Nin.
-      destruct (bytes_eqb (proc_key p) (proc_key q)) eqn:E.
-      - apply bytes_eqb_eq in E. rewrite (proc_key_good p Gp), (proc_key_good q Gq) in E.
-        apply key_of_id_gen in E; [|apply processing_elem_safe | apply good_proc_good; exact Gp | apply good_proc_good; exact Gq].
-        elim Nin. left. symmetry. exact E.
-      - cbn [orb]. apply IH; [exact Fq|]. intro C. apply Nin. right. exact C. }
+    assert (HK : has_key (proc_key p) (space xs pre) = false).
+    { unfold space. rewrite has_key_app. apply orb_false_iff. split.
+      - clear - Gp Fx. induction xs as [|x xs IHx]; [reflexivity|]. inversion Fx as [|? ? Gx Fx']; subst.
+        cbn [map has_key entry_of].
+        destruct (bytes_eqb (proc_key p) (key_of x)) eqn:E.
+        + apply bytes_eqb_eq in E. rewrite (proc_key_good p Gp) in E. unfold key_of in E.
+          apply gkey_inj in E; [|apply processing_elem_safe | apply deploy_elem_safe | apply good_proc_good; exact Gp | exact Gx].
+          destruct E as [E _]. discriminate E.
+        + cbn [orb]. apply IHx. exact Fx'.
+      - clear - Gp Fpre Nin. induction pre as [|q pre IH]; [reflexivity|]. inversion Fpre as [|? ? Gq Fq]; subst.
+        cbn [map has_key pentry]. cbn [map In] in Nin.
+        destruct (bytes_eqb (proc_key p) (proc_key q)) eqn:E.
+        + apply bytes_eqb_eq in E. rewrite (proc_key_good p Gp), (proc_key_good q Gq) in E.
+          apply gkey_inj in E; [|apply processing_elem_safe | apply processing_elem_safe | apply good_proc_good; exact Gp | apply good_proc_good; exact Gq].
+          destruct E as [_ E]. elim Nin. left. symmetry. exact E.
+        + cbn [orb]. apply IH; [exact Fq|]. intro C. apply Nin. right. exact C. }
     rewrite HK.
-    change (map pentry pre ++ [(proc_key p, p)]) with (map pentry pre ++ map pentry [p]). rewrite <- map_app.
-    rewrite (IH (pre ++ [p])).
+    assert (ES : space xs pre ++ [(proc_key p, IP p)] = space xs (pre ++ [p])).
+    { unfold space. rewrite map_app, app_assoc. reflexivity. }
+    rewrite ES. rewrite (IH xs (pre ++ [p])).
     + rewrite <- app_assoc. reflexivity.
+    + exact Fx.
     + apply Forall_app. split; [exact Fpre | constructor; [exact Gp | constructor]].
     + exact Fps'.
     + rewrite <- app_assoc. exact ND.
 Qed.
 
-Lemma status_built : forall b xs app entry (sel : names -> bool),
-  Forall good xs -> NoDup (map nm_id xs) ->
-  valid_app app = true -> valid_entry entry = true ->
-  (b = Redis -> no_meta app /\ no_meta entry) ->
-  (forall x, sel x = true <-> (nm_app x = app /\ nm_entry x = entry)) ->
-  status_nodes b (fst (build_names [] xs)) app entry = map nm_node (filter sel xs).
+(* the whole scenario: workloads, then markers *)
+Lemma build_all_good : forall xs ps, Forall good xs -> NoDup (map nm_id xs) ->
+  Forall good_proc ps -> NoDup (map p_ident ps) ->
+  build_names [] xs = (space xs [], map (fun _ => true) xs) /\
+  build_procs_n (space xs []) ps = (space xs ps, map (fun _ => true) ps).
 Proof.
-  intros b xs app entry sel F ND Va Ve Hb Sel. rewrite (build_names_good xs F ND). cbn [fst].
+  intros xs ps Fx NDx Fp NDp. split.
+  - unfold space. simpl. rewrite app_nil_r. exact (build_good xs [] (Forall_nil _) Fx NDx).
+  - exact (build_procs_good ps xs [] Fx (Forall_nil _) Fp NDp).
+Qed.
+
+(* ================================================================== *)
+(* queries over the key space                                          *)
+
+Lemma filter_ext_in : forall (A : Type) (f g : A -> bool) l,
+  (forall x, In x l -> f x = g x) -> filter f l = filter g l.
+Proof.
+  induction l as [|a l IH]; intro H; [reflexivity|]. simpl.
+  rewrite (H a (or_introl eq_refl)). rewrite IH; [reflexivity|]. intros x Hx. apply H. right. exact Hx.
+Qed.
+
+Lemma filter_none : forall (A : Type) (f : A -> bool) l, (forall x, In x l -> f x = false) -> filter f l = [].
+Proof.
+  induction l as [|a l IH]; intro H; [reflexivity|]. simpl. rewrite (H a (or_introl eq_refl)).
+  apply IH. intros x Hx. apply H. right. exact Hx.
+Qed.
+
+Lemma ids_of_entries : forall (f : bytes -> bool) xs,
+  ids_of (filter (fun kw => f (fst kw)) (map entry_of xs)) = Some (map nm_id (filter (fun x => f (key_of x)) xs)).
+Proof.
+  intros f xs. induction xs as [|x xs IH]; [reflexivity|]. cbn [map filter]. change (fst (entry_of x)) with (key_of x).
+  destruct (f (key_of x)); [|exact IH]. cbn [ids_of entry_of]. rewrite IH. reflexivity.
+Qed.
+
+(* markers are never under a deploy prefix, workloads never under a processing prefix *)
+Lemma markers_not_listed : forall b ps app entry node, Forall good_proc ps ->
+  ok_or_empty app -> ok_or_empty entry -> ok_or_empty node ->
+  filter (fun kw => under b (list_key app entry node) (fst kw)) (map pentry ps) = [].
+Proof.
+  intros b ps app entry node F Ha He Hn. apply filter_none. intros kw Hk.
+  apply in_map_iff in Hk. destruct Hk as [p [<- Hp]]. rewrite Forall_forall in F. specialize (F p Hp).
+  rewrite under_any. change (fst (pentry p)) with (proc_key p). rewrite (proc_key_good p F).
+  exact (gprefix_cross deploy_elem processing_elem app entry node (pnames p) deploy_elem_safe processing_elem_safe
+           roots_differ Ha He Hn (good_proc_good p F)).
+Qed.
+Lemma workloads_not_processing : forall b xs app entry, Forall good xs -> safe_elem app -> safe_elem entry ->
+  filter (fun kw => under b (proc_filter_key app entry) (fst kw)) (map entry_of xs) = [].
+Proof.
+  intros b xs app entry F Sa Se. apply filter_none. intros kw Hk.
+  apply in_map_iff in Hk. destruct Hk as [x [<- Hx]]. rewrite Forall_forall in F. specialize (F x Hx).
+  rewrite under_any. change (fst (entry_of x)) with (key_of x).
+  assert (K : proc_filter_key app entry = filter_key (slash :: processing_elem) app entry [])
+    by (exact (root_key2 processing_elem app entry processing_elem_safe Sa Se)).
+  rewrite K.
+  apply (gprefix_cross processing_elem deploy_elem app entry [] x processing_elem_safe deploy_elem_safe);
+    try (right; assumption); try (left; reflexivity); try assumption.
+  intro C. apply roots_differ. symmetry. exact C.
+Qed.
+
+(* ListWorkloads, on both stores: exactly the workloads created under the (non-ignored) names *)
+Lemma isolation : forall b xs ps app entry node (sel : names -> bool),
+  Forall good xs -> Forall good_proc ps -> ok_or_empty app -> ok_or_empty entry -> ok_or_empty node ->
+  (forall x, sel x = true <-> under_names app entry node x) ->
+  list_workloads b (space xs ps) app entry node = Some (map nm_id (filter sel xs)).
+Proof.
+  intros b xs ps app entry node sel F Fp Ha He Hn Sel. unfold list_workloads, space. cbv zeta.
+  rewrite filter_app, (markers_not_listed b ps app entry node Fp Ha He Hn), app_nil_r.
+  rewrite (ids_of_entries (fun k => under b (list_key app entry node) k)). f_equal. f_equal.
+  apply filter_ext_in. intros x Hx. rewrite Forall_forall in F. specialize (F x Hx).
+  rewrite under_any. pose proof (prefix_iff_names app entry node x Ha He Hn F) as P.
+  destruct (has_prefix (list_key app entry node) (key_of x)) eqn:E1; destruct (sel x) eqn:E2; try reflexivity.
+  - assert (sel x = true) by (apply Sel, P; reflexivity). congruence.
+  - assert (T : false = true) by (apply P, Sel, E2). discriminate.
+Qed.
+
+Lemma status_key_list_key : forall app entry, safe_elem app -> safe_elem entry ->
+  status_key app entry = list_key app entry [].
+Proof. intros app entry Sa Se. exact (root_key2 deploy_elem app entry deploy_elem_safe Sa Se). Qed.
+
+Lemma key_node_key_of : forall x, good x -> key_node (key_of x) = nm_node x.
+Proof. intros x G. exact (gkey_node deploy_elem x deploy_elem_safe G). Qed.
+
+(* the deployed part of GetDeployStatus: the nodes of exactly the workloads of (app, entry) *)
+Lemma status_nodes_spec : forall b xs ps app entry (sel : names -> bool),
+  Forall good xs -> Forall good_proc ps -> safe_elem app -> safe_elem entry ->
+  (forall x, sel x = true <-> (nm_app x = app /\ nm_entry x = entry)) ->
+  status_nodes b (space xs ps) app entry = map nm_node (filter sel xs).
+Proof.
+  intros b xs ps app entry sel F Fp Sa Se Sel. unfold status_nodes, space. cbv zeta.
+  rewrite status_key_list_key by assumption.
+  rewrite filter_app, (markers_not_listed b ps app entry [] Fp (or_intror Sa) (or_intror Se) (or_introl eq_refl)), app_nil_r.
+  induction xs as [|x xs IH]; [reflexivity|]. inversion F as [|? ? Gx Fx]; subst.
+  cbn [map filter]. change (fst (entry_of x)) with (key_of x). rewrite under_any.
+  pose proof (prefix_iff_names app entry [] x (or_intror Sa) (or_intror Se) (or_introl eq_refl) Gx) as P.
+  assert (U : under_names app entry [] x <-> (nm_app x = app /\ nm_entry x = entry)).
+  { unfold under_names, eff. destruct app; [destruct Sa; congruence|]. destruct entry; [destruct Se; congruence|]. split.
+    - intros [r E]. inversion E. auto.
+    - intros [<- <-]. exists [nm_node x]. reflexivity. }
+  destruct (has_prefix (list_key app entry []) (key_of x)) eqn:E1; destruct (sel x) eqn:E2; cbn [map fst].
+  - change (fst (entry_of x)) with (key_of x). rewrite (key_node_key_of x Gx). f_equal. apply IH. exact Fx.
+  - assert (sel x = true) by (apply Sel, U, P; reflexivity). congruence.
+  - assert (T : false = true) by (apply P, U, Sel, E2). discriminate.
+  - apply IH. exact Fx.
+Qed.
+
+(* doLoadProcessing: exactly the counters filed under (app, entry), with their node *)
+Lemma proc_counts_spec : forall b xs ps app entry (sel : proc -> bool),
+  Forall good xs -> Forall good_proc ps -> safe_elem app -> safe_elem entry ->
+  (forall p, sel p = true <-> (p_app p = app /\ p_entry p = entry)) ->
+  proc_counts b (space xs ps) app entry = map (fun p => (p_node p, p_count p)) (filter sel ps).
+Proof.
+  intros b xs ps app entry sel F Fp Sa Se Sel. unfold proc_counts, space. cbv zeta.
+  rewrite filter_app, (workloads_not_processing b xs app entry F Sa Se). cbn [List.app].
+  assert (K : proc_filter_key app entry = filter_key (slash :: processing_elem) app entry [])
+    by (exact (root_key2 processing_elem app entry processing_elem_safe Sa Se)).
+  rewrite K. clear K.
+  induction ps as [|p ps IH]; [reflexivity|]. inversion Fp as [|? ? Gp Fp']; subst.
+  cbn [map filter]. change (fst (pentry p)) with (proc_key p). rewrite under_any, (proc_key_good p Gp).
+  pose proof (gprefix_iff_names processing_elem app entry [] (pnames p) processing_elem_safe
+                (or_intror Sa) (or_intror Se) (or_introl eq_refl) (good_proc_good p Gp)) as P.
+  assert (U : under_names app entry [] (pnames p) <-> (p_app p = app /\ p_entry p = entry)).
+  { unfold under_names, eff, pnames. cbn [nm_app nm_entry nm_node].
+    destruct app; [destruct Sa; congruence|]. destruct entry; [destruct Se; congruence|]. split.
+    - intros [r E]. inversion E. auto.
+    - intros [<- <-]. exists [p_node p]. reflexivity. }
+  destruct (has_prefix (filter_key (slash :: processing_elem) app entry []) (gkey processing_elem (pnames p))) eqn:E1;
+    destruct (sel p) eqn:E2; cbn [flat_map map List.app].
+  - change (snd (pentry p)) with (IP p). cbv iota. change (fst (pentry p)) with (proc_key p).
+    rewrite (proc_key_good p Gp), (gkey_node processing_elem (pnames p) processing_elem_safe (good_proc_good p Gp)).
+    cbn [pnames nm_node List.app]. f_equal. apply IH. exact Fp'.
+  - assert (sel p = true) by (apply Sel, U, P; reflexivity). congruence.
+  - assert (T : false = true) by (apply P, U, Sel, E2). discriminate.
+  - apply IH. exact Fp'.
+Qed.
+
+(* GetDeployStatus: per node, the workloads created under (app, entry) plus the in-flight counters
+   created under (app, entry) -- nothing of any other application or entrypoint; both stores *)
+Lemma deploy_status_total : forall b xs ps app entry (selw : names -> bool) (selp : proc -> bool),
+  Forall good xs -> Forall good_proc ps ->
+  valid_app app = true -> valid_entry entry = true ->
+  (forall x, selw x = true <-> (nm_app x = app /\ nm_entry x = entry)) ->
+  (forall p, selp p = true <-> (p_app p = app /\ p_entry p = entry)) ->
+  deploy_status b (space xs ps) app entry =
+  agg (map (fun x => (nm_node x, 1%N)) (filter selw xs) ++ map (fun p => (p_node p, p_count p)) (filter selp ps)).
+Proof.
+  intros b xs ps app entry selw selp F Fp Va Ve Sw Sp. unfold deploy_status.
   pose proof (valid_app_safe _ Va) as Sa. destruct (valid_entry_safe _ Ve) as [Se _].
-  destruct b.
-  - apply status_etcd; assumption.
-  - destruct (Hb eq_refl) as [Ma Me]. rewrite redis_status_as_etcd by assumption. apply status_etcd; assumption.
+  rewrite (status_nodes_spec b xs ps app entry selw F Fp Sa Se Sw).
+  rewrite (proc_counts_spec b xs ps app entry selp F Fp Sa Se Sp).
+  rewrite map_map. reflexivity.
+Qed.
+
+(* WorkloadStatusStream on etcd: exactly the workloads created under the (non-ignored) names *)
+Lemma stream_etcd : forall xs app entry node (sel : names -> bool),
+  Forall good xs -> ok_or_empty app -> ok_or_empty entry -> ok_or_empty node ->
+  (forall x, sel x = true <-> under_names app entry node x) ->
+  stream_ids (map wl_of_names xs) app entry node = map nm_id (filter sel xs).
+Proof.
+  intros xs app entry node sel F Ha He Hn Sel. unfold stream_ids. cbv zeta.
+  induction xs as [|x xs IH]; [reflexivity|]. inversion F as [|? ? Gx Fx]; subst.
+  cbn [map filter].
+  change status_prefix with (slash :: status_elem).
+  rewrite (obj_key_good status_elem x status_elem_safe Gx).
+  pose proof (gprefix_iff_names status_elem app entry node x status_elem_safe Ha He Hn Gx) as P.
+  destruct (has_prefix (filter_key (slash :: status_elem) app entry node) (gkey status_elem x)) eqn:E1;
+    destruct (sel x) eqn:E2; cbn [map wl_of_names w_id].
+  - f_equal. apply IH. exact Fx.
+  - assert (sel x = true) by (apply Sel, P; reflexivity). congruence.
+  - assert (T : false = true) by (apply P, Sel, E2). discriminate.
+  - apply IH. exact Fx.
+Qed.
+
+(* ================================================================== *)
+(* assembled statements over the scenario built by the API calls       *)
+
+Definition valid_or_empty (valid : bytes -> bool) (n : bytes) : Prop := n = [] \/ valid n = true.
+Lemma voe_app : forall n, valid_or_empty valid_app n -> ok_or_empty n.
+Proof. intros n [->|H]; [left; reflexivity | right; apply valid_app_safe; exact H]. Qed.
+Lemma voe_entry : forall n, valid_or_empty valid_entry n -> ok_or_empty n.
+Proof. intros n [->|H]; [left; reflexivity | right; apply valid_entry_safe; exact H]. Qed.
+Lemma voe_node : forall n, valid_or_empty valid_node n -> ok_or_empty n.
+Proof. intros n [->|H]; [left; reflexivity | right; apply valid_node_safe; exact H]. Qed.
+
+(* the key space after creating the workloads xs and then the markers ps *)
+Definition built (xs : list names) (ps : list proc) : kspace :=
+  fst (build_procs_n (fst (build_names [] xs)) ps).
+
+Lemma built_space : forall xs ps, Forall good xs -> NoDup (map nm_id xs) ->
+  Forall good_proc ps -> NoDup (map p_ident ps) ->
+  built xs ps = space xs ps /\
+  snd (build_names [] xs) = map (fun _ => true) xs /\
+  snd (build_procs_n (fst (build_names [] xs)) ps) = map (fun _ => true) ps.
+Proof.
+  intros xs ps Fx NDx Fp NDp. destruct (build_all_good xs ps Fx NDx Fp NDp) as [E1 E2].
+  unfold built. rewrite E1. cbn [fst snd]. rewrite E2. cbn [fst snd]. auto.
+Qed.
+
+Lemma isolation_built : forall b xs ps app entry node (sel : names -> bool),
+  Forall good xs -> NoDup (map nm_id xs) -> Forall good_proc ps -> NoDup (map p_ident ps) ->
+  valid_or_empty valid_app app -> valid_or_empty valid_entry entry -> valid_or_empty valid_node node ->
+  (forall x, sel x = true <-> under_names app entry node x) ->
+  list_workloads b (built xs ps) app entry node = Some (map nm_id (filter sel xs)).
+Proof.
+  intros b xs ps app entry node sel Fx NDx Fp NDp Ha He Hn Sel.
+  destruct (built_space xs ps Fx NDx Fp NDp) as [-> _].
+  apply isolation; auto using voe_app, voe_entry, voe_node.
+Qed.
+
+Lemma deploy_status_built : forall b xs ps app entry (selw : names -> bool) (selp : proc -> bool),
+  Forall good xs -> NoDup (map nm_id xs) -> Forall good_proc ps -> NoDup (map p_ident ps) ->
+  valid_app app = true -> valid_entry entry = true ->
+  (forall x, selw x = true <-> (nm_app x = app /\ nm_entry x = entry)) ->
+  (forall p, selp p = true <-> (p_app p = app /\ p_entry p = entry)) ->
+  deploy_status b (built xs ps) app entry =
+  agg (map (fun x => (nm_node x, 1%N)) (filter selw xs) ++ map (fun p => (p_node p, p_count p)) (filter selp ps)).
+Proof.
+  intros b xs ps app entry selw selp Fx NDx Fp NDp Va Ve Sw Sp.
+  destruct (built_space xs ps Fx NDx Fp NDp) as [-> _].
+  apply deploy_status_total; assumption.
+Qed.
+
+(* ================================================================== *)
+(* refutations (witnesses are replayed on the real stores by the harness corpus) *)
+
+Definition nm (app entry node id : string) : names := mkNames (s2l app) (s2l entry) (s2l "abc001") (s2l node) (s2l id).
+
+(* the redis store before the repair (names unescaped in the SCAN pattern): accepted names with a
+   glob metacharacter saw other applications' workloads *)
+Definition list_workloads_redis_old (s : kspace) (app entry node : bytes) : option (list bytes) :=
+  ids_of (filter (fun kw => under_redis_old (list_key app entry node) (fst kw)) s).
+
+Lemma redis_old_glob_refuted :
+  exists xs app entry,
+    Forall good xs /\ NoDup (map nm_id xs) /\ valid_app app = true /\ valid_entry entry = true /\
+    list_workloads_redis_old (built xs []) app entry []
+    <> Some (map nm_id (filter (fun x => bytes_eqb (nm_app x) app && bytes_eqb (nm_entry x) entry) xs)) /\
+    list_workloads Redis (built xs []) app entry []
+    = Some (map nm_id (filter (fun x => bytes_eqb (nm_app x) app && bytes_eqb (nm_entry x) entry) xs)).
+Proof.
+  exists [nm "a*" "e" "n1" "id1"; nm "ab" "e" "n1" "id2"], (s2l "a*"), (s2l "e").
+  split; [|split; [|split; [|split; [|split]]]].
+  - fa; unfold good; simpl; repeat split; try reflexivity; try discriminate.
+  - simpl. repeat constructor; simpl; intuition discriminate.
+  - reflexivity.
+  - reflexivity.
+  - vm_compute. discriminate.
+  - vm_compute. reflexivity.
+Qed.
+
+(* the validation before the repair accepted names whose keys collide on both stores *)
+Lemma old_validation_refuted :
+  exists x y, validate_deploy_old (nm_app x) (nm_entry x) = 0%N /\ validate_deploy_old (nm_app y) (nm_entry y) = 0%N /\
+    (nm_app x, nm_entry x) <> (nm_app y, nm_entry y) /\ nm_id x <> nm_id y /\
+    (* both are filed, and listing x's application and entrypoint returns y's workload too *)
+    snd (build_names [] [x; y]) = [true; true] /\
+    list_workloads Etcd (built [x; y] []) (nm_app x) (nm_entry x) [] = Some [nm_id x; nm_id y] /\
+    list_workloads Redis (built [x; y] []) (nm_app x) (nm_entry x) [] = Some [nm_id x; nm_id y] /\
+    (* and the repaired validation rejects them *)
+    validate_deploy (nm_app x) (nm_entry x) <> 0%N /\ validate_deploy (nm_app y) (nm_entry y) <> 0%N.
+Proof.
+  exists (nm "a/b" "c" "n1" "id1"), (nm "a" "b/c" "n1" "id2").
+  vm_compute. repeat split; try reflexivity; try discriminate.
+Qed.
+
+Lemma old_roundtrip_refuted :
+  exists app entry ident, validate_deploy_old app entry = 0%N /\ no_byte underscore ident /\
+    parse_name (make_name app entry ident) <> Some (app, entry, ident) /\ validate_deploy app entry <> 0%N.
+Proof.
+  exists (s2l "/a"), (s2l "e"), (s2l "x"). vm_compute. repeat split; try reflexivity; discriminate.
+Qed.
+
+(* names outside validation: ".." lets a processing key escape to where a deploy query looks, and
+   ListWorkloads then fails on it -- the single key space of the model shows it *)
+Lemma escaping_names_meet :
+  exists x p, list_workloads Etcd (fst (build_procs_n (fst (build_names [] [x])) [p])) (nm_app x) (nm_entry x) [] = None.
+Proof.
+  exists (nm ".." "e" "n1" "id1"), (mkProc (s2l "..") (s2l "e") (s2l "n1") (s2l "op1") 2%N).
+  vm_compute. reflexivity.
+Qed.
+
+(* hypotheses are satisfiable *)
+Example names_example :
+  let xs := [nm "a" "b" "n1" "id1"; nm "ab" "b" "n1" "id2"; nm "a" "bc" "n1" "id3"; nm "a_b" "c" "n2" "id4"; nm "a" "b" "n2" "id5"] in
+  let ps := [mkProc (s2l "a") (s2l "b") (s2l "n1") (s2l "op1") 3%N; mkProc (s2l "a") (s2l "b2") (s2l "n1") (s2l "op2") 5%N] in
+  Forall good xs /\ NoDup (map nm_id xs) /\ Forall good_proc ps /\ NoDup (map p_ident ps) /\
+  list_workloads Etcd (built xs ps) (s2l "a") (s2l "b") [] = Some [s2l "id1"; s2l "id5"] /\
+  list_workloads Redis (built xs ps) (s2l "a") [] [] = Some [s2l "id1"; s2l "id3"; s2l "id5"] /\
+  deploy_status Redis (built xs ps) (s2l "a") (s2l "b") = [(s2l "n1", 4%N); (s2l "n2", 1%N)].
+Proof.
+  split; [|split; [|split; [|split; [|vm_compute; repeat split; reflexivity]]]].
+  - fa; unfold good; simpl; repeat split; try reflexivity; try discriminate.
+  - simpl. repeat constructor; simpl; intuition discriminate.
+  - fa; unfold good_proc, safe_elem, no_byte; simpl; repeat split; try reflexivity; try discriminate.
+  - simpl. repeat constructor; simpl; intuition discriminate.
 Qed.
 
 (* ================================================================== *)
@@ -789,6 +801,4 @@ Lemma accepted_safe_all : forall n,
   (valid_entry n = true -> safe_elem n /\ no_byte underscore n).
 Proof. intro n. split; [apply valid_app_safe | split; [apply valid_node_safe | apply valid_entry_safe]]. Qed.
 
-Lemma processing_created : forall ps, Forall good_proc ps -> NoDup (map p_ident ps) ->
-  build_procs_n [] ps = (map pentry ps, map (fun _ => true) ps).
-Proof. intros ps F ND. exact (build_procs_good ps [] (Forall_nil _) F ND). Qed.
+
